@@ -61,7 +61,8 @@ func genbankFieldBodyParser(depth int, sep byte) pars.Parser {
 	fieldLineParser := genbankFieldLineParser(depth)
 	return func(state *pars.State, result *pars.Result) error {
 		pars.Line(state, result)
-		w := bytes.NewBuffer(result.Token)
+		// The token aliases the buffer of the state: copy it before appending.
+		w := bytes.NewBuffer(append([]byte(nil), result.Token...))
 		for fieldLineParser(state, result) == nil {
 			w.WriteByte(sep)
 			w.Write(result.Token)
